@@ -11,9 +11,13 @@ messages change nothing).  Helper lemmas: `PvProofs/Lemmas/Attr*`.
 Clauses of the property and where they are proved:
  1. only the current owner of a name writes under it   → `only_name_owner_writes`,
     `writes_are_what_the_owner_signed`, `transfer_and_bind_keep_attributes`
+ 1b. names bound under RESTRICTED parents (only the parent's owner binds) → `bindNameUnder_refines`,
+    `restricted_parent_only_owner_binds`, `runR_reachable`, `only_name_owner_writes_with_restricted_binds`;
+    the owner's valid add is never refused → `add_accepted_iff`
  2. the lookup never omits a holder                     → `lookup_never_omits`
     (via the invariant `counter_dominates_records`; equality of counter and record count is
-    FALSE of the code: `counter_can_exceed_records`; `counter_exact_partial` without overwrites)
+    FALSE of the code: `counter_can_exceed_records`; what the counter IS in general:
+    `counter_is_records_plus_overwrites`, `counter_exact_iff_no_overwrite`)
  3. an attribute disappears only by owner deletion, name deletion or its stored expiration
     passing → `disappears_only_if` (all histories, every accepted message),
     `unexpired_survives_begin`, `on_witnesses`.
@@ -25,10 +29,15 @@ Clauses of the property and where they are proved:
     (`expired_survives_above_cap`, `expired_survives_begin_block_in_a_history`,
     `capped_sweep_witness`); what holds: `expired_gone_after_begin_partial` (up to the cap),
     `capped_sweep_removes_min` (exactly min(cap, expired) expired attributes go, in every case),
-    `sweep_removes_min` (the same for `Keeper.DeleteExpiredAttributes` with any limit)
+    `sweep_removes_min` (the same for `Keeper.DeleteExpiredAttributes` with any limit);
+    the state invariant "no stored expiration is before the time of the last begun block":
+    `no_stored_expiration_before_block_time_partial` (histories below the cap); the boundary
+    (expiration = block time survives): `expiration_equal_to_block_time_survives`,
+    `expiration_before_block_time_gone`, `expiry_boundary_witness`
  5. name deletion removes exactly the attributes under the name → `deleteName_purges_exactly`
  6. the checker run on the implementation is these conclusions → `verdict_ok`,
     `verdict_above_cap`, `verdictBulk_ok` (a transaction of many adds, op line `bulk`)
+ 6b. genesis export / import over this model (cited by C18): `PvProofs.C18Attr`
  7. names spelt non-normalised (mixed case, white space; `SOp` / `stepS` / `runS`): an accepted
     message does what the message with the normalised name does (`stepS_refines`,
     `runS_reachable`), so every clause holds with "the owner of the NORMALISED name"
@@ -38,6 +47,8 @@ Clauses of the property and where they are proved:
 import PvProofs.Lemmas.AttrStep
 import PvProofs.Lemmas.AttrExact
 import PvProofs.Lemmas.AttrBulk
+import PvProofs.Lemmas.AttrGenesis
+import PvProofs.Lemmas.AttrExcess
 
 set_option linter.unusedSimpArgs false
 set_option linter.unusedVariables false
@@ -45,6 +56,13 @@ set_option linter.unusedVariables false
 namespace PvProofs.C16
 open PvModel.Attr PvProofs.Lemmas.AttrStore PvProofs.Lemmas.AttrInv PvProofs.Lemmas.AttrSweep
   PvProofs.Lemmas.AttrStep PvProofs.Lemmas.AttrExact PvProofs.Lemmas.AttrCap PvProofs.Lemmas.AttrBulk
+  PvProofs.Lemmas.AttrGenesis PvProofs.Lemmas.AttrExcess
+
+/-- The error class a message is refused with (`none` = accepted). -/
+def refusal (r : Except Err State) : Option Err :=
+  match r with
+  | .error e => some e
+  | .ok _ => none
 
 /-! ## Invariants of every reachable state -/
 
@@ -85,6 +103,41 @@ example :
     let ops : List Op := [.add "A" ⟨"B", "kyc.vf", "1", .string, none⟩, .add "A" ⟨"B", "kyc.vf", "2", .int, some 120⟩,
       .update "A" "B" "kyc.vf" "1" .string "7" .string, .deleteDistinct "A" "B" "kyc.vf" "2"]
     Init s0 ∧ noOverwriteRun s0 ops = true ∧ count (run s0 ops) "kyc.vf" "B" = 1 := by decide
+
+/-- What the lookup counter IS, after EVERY history (re-adds of identical attributes, updates onto
+stored values, deletions, purges, expiry included): the number of records under (name, account)
+plus the number of accepted OVERWRITING writes under it so far (`overwrites`: an `add` onto a stored
+key, an `update` onto another stored value).  The surplus is never compensated: every removal takes
+exactly one record and one counter unit. -/
+theorem counter_is_records_plus_overwrites (s0 : State) (h0 : Init s0) (ops : List Op) (name addr : String) :
+    getCnt (run s0 ops) name addr = count (run s0 ops) name addr + overwrites s0 ops name addr := by
+  have h := run_off ops (fun _ _ => 0) s0 (init_inv h0)
+    (by intro n a; unfold count getCnt; rw [h0.1, h0.2.1]; rfl) name addr
+  simp only [Nat.zero_add] at h
+  omega
+
+/-- So the counter equals the record count exactly when no accepted write of the history stored
+over a record under that (name, account) — and once it exceeds it, it does so for ever. -/
+theorem counter_exact_iff_no_overwrite (s0 : State) (h0 : Init s0) (ops : List Op) (name addr : String) :
+    getCnt (run s0 ops) name addr = count (run s0 ops) name addr ↔ overwrites s0 ops name addr = 0 := by
+  have := counter_is_records_plus_overwrites s0 h0 ops name addr
+  omega
+
+/-- An account listed by the lookup without holding an attribute under the name: exactly the
+(name, account) pairs with no record and at least one overwriting write in the history. -/
+theorem listed_without_attribute_iff (s0 : State) (h0 : Init s0) (ops : List Op) (name addr : String)
+    (hc : count (run s0 ops) name addr = 0) :
+    0 < getCnt (run s0 ops) name addr ↔ 0 < overwrites s0 ops name addr := by
+  have := counter_is_records_plus_overwrites s0 h0 ops name addr
+  omega
+
+example :
+    let s0 : State := { now := 100, accts := ["A"], names := [("kyc.vf", "A")] }
+    let ops : List Op := [.add "A" ⟨"B", "kyc.vf", "1", .string, none⟩, .add "A" ⟨"B", "kyc.vf", "1", .int, some 120⟩,
+      .add "A" ⟨"B", "kyc.vf", "2", .int, none⟩, .update "A" "B" "kyc.vf" "2" .int "1" .string,
+      .add "B" ⟨"B", "kyc.vf", "1", .int, none⟩, .delete "A" "B" "kyc.vf"]
+    Init s0 ∧ overwrites s0 ops "kyc.vf" "B" = 2 ∧ count (run s0 ops) "kyc.vf" "B" = 0 ∧
+      getCnt (run s0 ops) "kyc.vf" "B" = 2 := by decide
 
 /-! ## Clause 1 — only the owner of the name writes -/
 
@@ -198,6 +251,34 @@ theorem transfer_and_bind_keep_attributes {s s' : State} :
 theorem rejected_changes_nothing (s : State) (op : Op) (e : Err) (h : step s op = .error e) :
     apply s op = s := by
   unfold apply; rw [h]
+
+/-- The other direction of "only the owner writes" for `MsgAddAttribute`: the add of a valid,
+unexpired attribute signed by the account that owns the name is never refused — on any account,
+whatever is stored already (and a refusal is exactly the failure of one of the four checks). -/
+theorem add_accepted_iff (s : State) (sg : String) (a : Attribute) :
+    (∃ s', step s (.add sg a) = .ok s') ↔
+      (validateExpirationDate s a = true ∧ validateBasic a = true ∧ s.accts.contains sg = true ∧
+        resolvesTo s a.name sg = true) := by
+  constructor
+  · rintro ⟨s', h⟩
+    refine ⟨(add_ok h).1, add_valid h, ?_, (add_ok h).2.1⟩
+    simp only [step] at h
+    split at h; · cases h
+    unfold setAttribute at h
+    split at h; · cases h
+    split at h; · cases h
+    split at h; · cases h
+    rename_i h3
+    simpa using h3
+  · rintro ⟨h1, h2, h3, h4⟩
+    have h3' : sg ∈ s.accts := by simpa using h3
+    exact ⟨put s a, by simp [step, setAttribute, h1, h2, h3', h4, put]⟩
+
+example :
+    let s : State := { now := 100, accts := ["A"], names := [("kyc.vf", "A")] }
+    let a : Attribute := ⟨"B", "kyc.vf", "1", .string, some 100⟩
+    validateExpirationDate s a = true ∧ validateBasic a = true ∧ s.accts.contains "A" = true ∧
+      resolvesTo s a.name "A" = true := by decide
 
 /-! ## Clause 2 — the lookup never omits a holder -/
 
@@ -472,6 +553,103 @@ theorem unexpired_survives_begin {s s' : State} {t : Nat} (hi : Inv s)
   have := hne q.1 hx
   omega
 
+/-! ## No stored expiration is before the time of the last begun block (up to the cap)
+
+`ValidateExpirationDate` refuses an expiration before the block time on every write, and the sweep
+of every block removes what has expired since — as long as it does not hit its cap. -/
+
+/-- One message keeps "no stored expiration is before the block time"; a block re-establishes it
+for the NEW block time provided at most 100 000 attributes were expired when it began. -/
+theorem step_keeps_none_expired {s s' : State} {op : Op} (hi : Inv s) (hf : noneExpired s = true)
+    (h : step s op = .ok s')
+    (hcap : ∀ t, op = .beginBlock t → expiredCount s t ≤ maxExpiredAttributionCount) :
+    noneExpired s' = true := by
+  unfold noneExpired at hf ⊢
+  by_cases hs : ∃ t, op = .beginBlock t
+  · obtain ⟨t, rfl⟩ := hs
+    rw [begin_now h]
+    exact expired_gone_after_begin_partial_inv hi h (hcap t rfl)
+  · rw [fresh_iff] at hf ⊢
+    exact step_fresh hf h (writes_are_what_the_owner_signed hi h) (fun t e => hs ⟨t, e⟩)
+
+theorem run_keeps_none_expired (ops : List Op) : ∀ s : State, Inv s → noneExpired s = true →
+    underCapRun s ops = true → noneExpired (run s ops) = true := by
+  induction ops with
+  | nil => intro s _ h _; exact h
+  | cons op rest ih =>
+    intro s hi hf hc
+    simp only [underCapRun, Bool.and_eq_true] at hc
+    refine ih (apply s op) (apply_inv op hi) ?_ hc.2
+    unfold apply
+    cases h : step s op with
+    | error e => exact hf
+    | ok s' =>
+      refine step_keeps_none_expired hi hf h ?_
+      intro t e
+      subst e
+      simpa using hc.1
+
+/-- PARTIAL (the cap).  Full statement (FALSE of the code, `expired_survives_begin_block_in_a_history`):
+"in every reachable state no stored attribute has an expiration before the time of the last begun
+block".  It holds after every history in which no block began with more than
+`MaxExpiredAttributionCount` = 100 000 expired attributes (`underCapRun`) — whatever else the
+history does (re-adds, updates of the expiration, transfers, block times that do not increase).
+Missing: the states in which the capped sweep has left a backlog. -/
+theorem no_stored_expiration_before_block_time_partial (s0 : State) (h0 : Init s0) (ops : List Op)
+    (hcap : underCapRun s0 ops = true) (r : Attribute) (hr : r ∈ (run s0 ops).recs) (e : Nat)
+    (he : r.exp = some e) : (run s0 ops).now ≤ e := by
+  have h1 : noneExpired s0 = true := by
+    unfold noneExpired expiredGone; rw [h0.1]; rfl
+  have := run_keeps_none_expired ops s0 (init_inv h0) h1 hcap
+  unfold noneExpired at this
+  exact (fresh_iff _).mp this r hr e he
+
+example :
+    let s0 : State := { now := 100, accts := ["A"], names := [("kyc.vf", "A")] }
+    let ops : List Op := [.add "A" ⟨"B", "kyc.vf", "1", .string, some 105⟩, .add "A" ⟨"B", "kyc.vf", "2", .int, some 120⟩,
+      .beginBlock 111, .updateExp "A" "B" "kyc.vf" "2" (some 111), .beginBlock 111]
+    Init s0 ∧ underCapRun s0 ops = true ∧ (run s0 ops).now = 111 ∧
+      (run s0 ops).recs = [⟨"B", "kyc.vf", "2", .int, some 111⟩] := by
+  decide
+
+/-- The boundary of "has passed": an attribute whose stored expiration EQUALS the time of the block
+survives that block (the sweep visits queue entries strictly before the block time only) … -/
+theorem expiration_equal_to_block_time_survives {s s' : State} {t : Nat} (hi : Inv s)
+    (h : step s (.beginBlock t) = .ok s') (r : Attribute) (hr : r ∈ s.recs) (he : r.exp = some t) :
+    r ∈ s'.recs :=
+  unexpired_survives_begin hi h r hr (fun e hx => by rw [he] at hx; cases hx; exact Nat.le_refl _)
+
+/-- … and an attribute whose stored expiration is one second (or more) earlier is gone after it
+(below the cap). -/
+theorem expiration_before_block_time_gone {s s' : State} {t : Nat} (hi : Inv s)
+    (h : step s (.beginBlock t) = .ok s') (hcap : expiredCount s t ≤ maxExpiredAttributionCount)
+    (r : Attribute) (e : Nat) (he : r.exp = some e) (hlt : e < t) : r ∉ s'.recs := by
+  intro hr
+  have hg := expired_gone_after_begin_partial_inv hi h hcap
+  rw [show t = s'.now from (begin_now h).symm, fresh_iff] at hg
+  have := hg r hr e he
+  rw [begin_now h] at this
+  omega
+
+/-- The boundary on a history: an expiration equal to the block time is accepted by
+`ValidateExpirationDate` (add at time 100 with expiration 100); the attribute with expiration 110
+is still stored after the block at 110 and gone after the block at 111. -/
+theorem expiry_boundary_witness :
+    let s0 : State := { now := 100, accts := ["A"], names := [("kyc.vf", "A")] }
+    let a : Attribute := ⟨"B", "kyc.vf", "1", .string, some 110⟩
+    (run s0 [.add "A" ⟨"B", "kyc.vf", "9", .string, some 100⟩]).recs = [⟨"B", "kyc.vf", "9", .string, some 100⟩] ∧
+    (run s0 [.add "A" ⟨"B", "kyc.vf", "9", .string, some 99⟩]).recs = [] ∧
+    (run s0 [.add "A" a, .beginBlock 110]).recs = [a] ∧
+    (run s0 [.add "A" a, .beginBlock 110, .beginBlock 111]).recs = [] := by
+  decide
+
+example :
+    let s0 : State := { now := 100, accts := ["A"], names := [("kyc.vf", "A")] }
+    let s := run s0 [.add "A" ⟨"B", "kyc.vf", "1", .string, some 110⟩]
+    Inv s ∧ (∃ s', step s (.beginBlock 110) = .ok s') ∧ (⟨"B", "kyc.vf", "1", .string, some 110⟩ : Attribute) ∈ s.recs ∧
+      expiredCount s 111 ≤ maxExpiredAttributionCount :=
+  ⟨invariants_hold _ (by decide) _, ⟨_, rfl⟩, by decide, by decide⟩
+
 /-! ## Clause 5 — deleting a name -/
 
 /-- `MsgDeleteName` is accepted only from the owner, unbinds the name and removes exactly the
@@ -598,6 +776,87 @@ theorem on_witnesses :
     (run s0 a).recs = [⟨"B", "kyc.vf", "1", .int, some 200⟩] ∧ (run s0 a).queue = [(200, ("B", "kyc.vf", "1"))] ∧
     (run s0 b).recs = [⟨"B", "kyc.vf", "1", .string, none⟩] ∧ (run s0 b).queue = [] ∧
     (run s0 c).recs = [⟨"B", "kyc.vf", "2", .string, none⟩] ∧ (run s0 c).queue = [] := by
+  decide
+
+/-! ## Names bound under restricted parents (`bindNameUnder`, `ROp`, `runR`)
+
+`MsgBindName` names a parent record; when that record is restricted only its owner may bind under
+it.  The plain `.bind` of the model is the bind under an unrestricted parent, which accepts MORE;
+so every history with restricted-parent binds is a history of the plain model, and every clause
+above covers the names bound that way. -/
+
+/-- Refinement: an accepted bind under any parent (restricted or not) does exactly what the plain
+bind does. -/
+theorem bindNameUnder_refines {s s' : State} {p sg n o : String} {r : Bool}
+    (h : bindNameUnder s p r sg n o = .ok s') : step s (.bind n o) = .ok s' := by
+  unfold bindNameUnder at h
+  split at h
+  · cases h
+  · split at h
+    · cases h
+    · exact h
+
+/-- Under a RESTRICTED parent only the parent's owner binds (and the parent must exist). -/
+theorem restricted_parent_only_owner_binds {s s' : State} {p sg n o : String}
+    (h : bindNameUnder s p true sg n o = .ok s') : resolvesTo s p sg = true := by
+  unfold bindNameUnder at h
+  split at h
+  · cases h
+  · split at h
+    · cases h
+    · rename_i hx
+      simpa using hx
+
+theorem applyR_eq (s : State) (x : ROp) :
+    applyR s x = s ∨ ∃ op, applyR s x = apply s op := by
+  cases x with
+  | plain op => right; exact ⟨op, rfl⟩
+  | bindUnder p r sg n o =>
+    unfold applyR
+    cases hx : stepR s (.bindUnder p r sg n o) with
+    | error e => left; rfl
+    | ok s' => right; exact ⟨.bind n o, by simp [apply, bindNameUnder_refines hx]⟩
+
+/-- Every state reached by a history with binds under restricted parents is reached by a history of
+the plain model: all theorems about `run s0 ops` hold of `runR s0 xs`. -/
+theorem runR_reachable (s0 : State) (xs : List ROp) : ∃ ops, runR s0 xs = run s0 ops := by
+  induction xs generalizing s0 with
+  | nil => exact ⟨[], rfl⟩
+  | cons x xs ih =>
+    obtain ⟨ops, h⟩ := ih (applyR s0 x)
+    rcases applyR_eq s0 x with e | ⟨op, e⟩
+    · refine ⟨ops, ?_⟩
+      show runR (applyR s0 x) xs = run s0 ops
+      rw [h, e]
+    · refine ⟨op :: ops, ?_⟩
+      show runR (applyR s0 x) xs = run (apply s0 op) ops
+      rw [h, e]
+
+/-- Clauses 1-3 in histories whose names are (also) bound under restricted parents: every accepted
+attribute write is signed by the current owner of the name, the lookup is complete, every new
+record is what the owner signed, every disappearance is justified. -/
+theorem only_name_owner_writes_with_restricted_binds (s0 : State) (h0 : Init s0) (xs : List ROp) (op : Op)
+    (s' : State) (h : step (runR s0 xs) op = .ok s') :
+    writerIsOwner (runR s0 xs) op = true ∧ lookupComplete s' = true ∧
+      appearancesJustified (runR s0 xs) op s' = true ∧ disappearancesJustified (runR s0 xs) op s' = true := by
+  obtain ⟨ops, e⟩ := runR_reachable s0 xs
+  rw [e] at h ⊢
+  have hi := invariants_hold s0 h0 ops
+  exact ⟨only_name_owner_writes_inv hi h, lookupComplete_of_inv (step_inv hi h),
+    writes_are_what_the_owner_signed hi h, disappears_only_if_inv hi h⟩
+
+/-- `A` owns the restricted root `vf`.  The stranger `C` cannot bind `kyc.vf` under it; `A` binds it
+for `C`; from then on `C` — and not `A` — writes attributes under `kyc.vf`.  Under an unrestricted
+root, or one that does not exist, the flag decides nothing / the bind is refused. -/
+theorem restricted_bind_witness :
+    let s0 : State := { now := 100, accts := ["A", "C"], names := [("vf", "A")] }
+    refusal (stepR s0 (.bindUnder "vf" true "C" "kyc.vf" "C")) = some .invalid ∧
+    refusal (stepR s0 (.bindUnder "vf" false "C" "kyc.vf" "C")) = none ∧
+    refusal (stepR s0 (.bindUnder "xx" false "A" "kyc.xx" "C")) = some .invalid ∧
+    getRecordByName (runR s0 [.bindUnder "vf" true "C" "kyc.vf" "C", .bindUnder "vf" true "A" "kyc.vf" "C"]) "kyc.vf" = some "C" ∧
+    (runR s0 [.bindUnder "vf" true "C" "kyc.vf" "C", .bindUnder "vf" true "A" "kyc.vf" "C",
+        .plain (.add "A" ⟨"B", "kyc.vf", "1", .string, none⟩),
+        .plain (.add "C" ⟨"B", "kyc.vf", "2", .string, none⟩)]).recs = [⟨"B", "kyc.vf", "2", .string, none⟩] := by
   decide
 
 /-! ## Non-normalised spellings of the name (`SOp`, `stepS`, `runS`)
@@ -771,12 +1030,6 @@ example :
     let attrs : List Attribute := [⟨"B", "kyc.vf", "1", .int, some 105⟩, ⟨"B", "kyc.vf", "2", .int, some 105⟩]
     ∃ s', stepAll s0 (attrs.map fun a => ⟨{}, .add "A" a⟩) = .ok s' ∧ s'.recs.length = 2 :=
   ⟨_, rfl, by decide⟩
-
-/-- The error class a message is refused with (`none` = accepted). -/
-def refusal (r : Except Err State) : Option Err :=
-  match r with
-  | .error e => some e
-  | .ok _ => none
 
 /-- Spellings at work: `A` owns `kyc.vf`, `B` holds an attribute.  The stranger `C` is refused
 with the normalised name (`perm`), with a white-space spelling (the name key still hits: `perm`)
